@@ -50,7 +50,7 @@ OraclePrecedence == (phase = "case" /\ "mix" \in DOMAIN cs) =>
 \* ---- properties of the oracle (checked by TLC on every enumerated case) ----
 \* every error addresses a position: its path is non-empty unless the whole request was refused
 OracleErrPaths == phase = "case" =>
-  LET e == Exp({}) IN \A i \in DOMAIN e.errs : e.errs[i].class \in {"no_operation", "rejected"} \/ e.errs[i].path # <<>>
+  LET e == Exp({}) IN \A i \in DOMAIN e.errs : e.errs[i].class \in {"no_operation", "no_root", "rejected"} \/ e.errs[i].path # <<>>
 \* no data without an executed operation, and then no resolver call (C01)
 OracleNoOpNoCall == phase = "case" => LET e == Exp({}) IN (~e.hasData) => e.calls = <<>>
 \* an injected fault removes nothing but what lies at or below its position (C06): the
